@@ -513,3 +513,13 @@ def container_method(ip, v, name):
         if name == "count":
             return PyFn(lambda ip2, x: v.count(x), "tuple.count")
     raise Unsupported(f"method {type(v).__name__}.{name}")
+
+
+@model("typing.NewType")
+def _newtype(ip, name, tp):
+    return PyFn(lambda ip2, x: x, f"NewType:{name}")
+
+
+@model("typing.TypeVar")
+def _typevar(ip, *a, **k):
+    return None
